@@ -84,3 +84,87 @@ Example C02_field_position_example :
     leaf_enc "2.5" TOLERANT default_ec (Some (unbs "SI")) "12" = Ok (unbs "12") /\
     is_blank "12" = false /\ delim_free default_ec "12".
 Proof. vm_compute. do 3 eexists. repeat split; reflexivity. Qed.
+
+(* Component j (of base datatype b) of a field whose datatype is a struct D: the value stands
+   after exactly i field separators and j-1 component separators, and is found under D_j. *)
+Theorem C02_component_position : forall v t, tables_of v = Some t ->
+  forall e, ec_ok e ->
+  forall sn r, In (sn, r) (t_segments t) -> sn <> unbs "ANYHL7SEGMENT" -> sn <> unbs "MSH" ->
+  exists srows, r = SSeqIn false srows None /\
+  forall i row inf D rows j crow ci b x,
+    1 <= i -> nth_error srows (pred i) = Some row ->
+    row_ref t row = Some (SSeqDt inf) -> i_dt inf = Some D -> slookup D (t_structs t) = Some rows ->
+    1 <= j -> nth_error rows (pred j) = Some crow ->
+    row_ref t crow = Some (SLeaf ci) -> i_dt ci = Some b ->
+    is_blank x = false -> delim_free e x -> leaf_enc v TOLERANT e (Some b) x = Ok x ->
+    let text := sn ++ repeat (fsep e) i ++ repeat (csep e) (pred j) ++ x in
+    exists s f c sb,
+      parse_segment t TOLERANT e (leaf_enc v TOLERANT e) text None = Ok s /\
+      s_children s = [f] /\ f_name f = Some (name_idx sn i) /\ f_children f = [c] /\
+      c_name c = Some (name_idx D j) /\ c_children c = [sb] /\ sc_value sb = x /\
+      enc_segment t e s false = Ok text.
+Proof.
+  intros v t Ht e He sn r Hin Ha Hm.
+  destruct (shipped_table_facts v t Ht) as [Hst [Hvar _]].
+  destruct (shipped_segment_ok v t sn r Ht Hin Ha Hm) as [Hl [srows [-> [H3 [Hup [Hmsh [Hz [Hc Hrows]]]]]]]].
+  exists srows. split; [reflexivity|].
+  intros i row inf D rows j crow ci b x Hi Hn Hr Hdt HlD Hj Hnc Hrc Hdc Hx Hd Hlf.
+  exact (component_position t e (leaf_enc v TOLERANT e) He Hst Hvar sn srows i row inf D rows j crow ci b x
+           H3 Hup Hmsh Hz Hl Hc Hrows Hi Hn Hr Hdt HlD Hj Hnc Hrc Hdc Hx Hd Hlf).
+Qed.
+Print Assumptions C02_component_position.
+
+(* Subcomponent k of component j (whose datatype is the flat struct D2) of a field of struct
+   datatype D: after exactly i field, j-1 component and k-1 subcomponent separators, found under
+   D_j / D2_k, and nowhere else (the encoding is exactly that line). *)
+Theorem C02_subcomponent_position : forall v t, tables_of v = Some t ->
+  forall e, ec_ok e ->
+  forall sn r, In (sn, r) (t_segments t) -> sn <> unbs "ANYHL7SEGMENT" -> sn <> unbs "MSH" ->
+  exists srows, r = SSeqIn false srows None /\
+  forall i row inf D rows j crow ci D2 rows2 k x,
+    1 <= i -> nth_error srows (pred i) = Some row ->
+    row_ref t row = Some (SSeqDt inf) -> i_dt inf = Some D -> slookup D (t_structs t) = Some rows ->
+    1 <= j -> nth_error rows (pred j) = Some crow ->
+    row_ref t crow = Some (SSeqDt ci) -> i_dt ci = Some D2 -> slookup D2 (t_structs t) = Some rows2 ->
+    1 <= k <= length rows2 ->
+    is_blank x = false -> delim_free e x -> leaf_enc v TOLERANT e (sub_dt t rows2 k) x = Ok x ->
+    let text := sn ++ repeat (fsep e) i ++ repeat (csep e) (pred j) ++ repeat (ssep e) (pred k) ++ x in
+    exists s f c sb,
+      parse_segment t TOLERANT e (leaf_enc v TOLERANT e) text None = Ok s /\
+      s_children s = [f] /\ f_name f = Some (name_idx sn i) /\ f_children f = [c] /\
+      c_name c = Some (name_idx D j) /\ c_children c = [sb] /\
+      sc_name sb = Some (name_idx D2 k) /\ sc_value sb = x /\
+      enc_segment t e s false = Ok text.
+Proof.
+  intros v t Ht e He sn r Hin Ha Hm.
+  destruct (shipped_table_facts v t Ht) as [Hst [Hvar _]].
+  destruct (shipped_segment_ok v t sn r Ht Hin Ha Hm) as [Hl [srows [-> [H3 [Hup [Hmsh [Hz [Hc Hrows]]]]]]]].
+  exists srows. split; [reflexivity|].
+  intros i row inf D rows j crow ci D2 rows2 k x Hi Hn Hr Hdt HlD Hj Hnc Hrc Hdc HlD2 Hk Hx Hd Hlf.
+  exact (subcomponent_position t e (leaf_enc v TOLERANT e) He Hst Hvar sn srows i row inf D rows j crow ci D2 rows2 k x
+           H3 Hup Hmsh Hz Hl Hc Hrows Hi Hn Hr Hdt HlD Hj Hnc Hrc Hdc HlD2 Hk Hx Hd Hlf).
+Qed.
+Print Assumptions C02_subcomponent_position.
+
+
+(* real rows: PID-3 (CX), CX-4 (HD), HD-2 (ST) of v2.5: the line PID|||^^^&x *)
+Definition ex_t := Gen.Tables_v2_5.tables.
+Definition ex_srows : list srow := match slookup "PID" (t_segments ex_t) with Some (SSeqIn _ rows _) => rows | _ => [] end.
+Definition ex_row : srow := nth 2 ex_srows SRowBad.
+Definition ex_inf : info := match row_ref ex_t ex_row with Some (SSeqDt i) => i | _ => mk_info None None None 0 end.
+Definition ex_rows : list srow := match slookup "CX" (t_structs ex_t) with Some rows => rows | None => [] end.
+Definition ex_crow : srow := nth 3 ex_rows SRowBad.
+Definition ex_ci : info := match row_ref ex_t ex_crow with Some (SSeqDt i) => i | _ => mk_info None None None 0 end.
+Definition ex_rows2 : list srow := match slookup "HD" (t_structs ex_t) with Some rows => rows | None => [] end.
+
+Example C02_subcomponent_position_example :
+    slookup "PID" (t_segments ex_t) = Some (SSeqIn false ex_srows None) /\
+    nth_error ex_srows (pred 3) = Some ex_row /\ row_ref ex_t ex_row = Some (SSeqDt ex_inf) /\
+    i_dt ex_inf = Some (unbs "CX") /\ slookup "CX" (t_structs ex_t) = Some ex_rows /\
+    nth_error ex_rows (pred 4) = Some ex_crow /\ row_ref ex_t ex_crow = Some (SSeqDt ex_ci) /\
+    i_dt ex_ci = Some (unbs "HD") /\ slookup "HD" (t_structs ex_t) = Some ex_rows2 /\
+    Nat.leb 2 (length ex_rows2) = true /\ sub_dt ex_t ex_rows2 2 = Some (unbs "ST") /\
+    leaf_enc "2.5" TOLERANT default_ec (sub_dt ex_t ex_rows2 2) "x" = Ok (unbs "x") /\
+    unbs "PID" ++ repeat (fsep default_ec) 3 ++ repeat (csep default_ec) (pred 4) ++
+      repeat (ssep default_ec) (pred 2) ++ unbs "x" = unbs "PID|||^^^&x".
+Proof. repeat split; vm_compute; reflexivity. Qed.
